@@ -6,7 +6,7 @@ static std::string chk(const Regs &, const Op &, const Regs &b, Inst &) { return
 static bool ntPred(const Hist &h) { return h.enableAfterEvent; }
 
 static std::string replayOps(const Replay &r) {
-    return runWalk(opsDec(r.get("ops")), (int) r.num("queue", 2), chk);
+    return runWalk(opsDec(r.get("ops")), (int) r.num("queue", 2), chk, nullptr, (int) r.num("mode", 0));
 }
 static void fail(const Opt &o, Ev &ev, const std::vector<Op> &path, int queue, const std::string &m) {
     failEnum(o, ev, "ops", fmt("queue=%d\nops=%s\n", queue, opsEnc(path).c_str()), m);
@@ -55,8 +55,10 @@ static void runSequences(const Opt &o, Ev &ev) {
 static std::string bodyWalk(Src &s, Ev &ev) {
     int queue = (int) s.range(1, 4);
     std::vector<Op> ops = decodeWalk(s, 200);
+    int mode = s.prob(1, 3) ? (int) s.range(1, 4) : 0;       // what the service-request callback returns / does (status_explore.hpp)
     Hist h;
-    std::string m = runWalk(ops, queue, chk, &h);
+    std::string m = runWalk(ops, queue, chk, &h, mode);
+    if (mode) ev.label(fmt("walk-control-callback-mode-%d", mode));
     ev.eval(ops.size());
     ev.label("walk-ops", ops.size());
     if (h.enableAfterEvent) ev.nt(hashStr(opsEnc(ops)));
